@@ -15,16 +15,16 @@ EDIT_PROPS = {"C04", "C12", "C13"}
 PROFILES = {
     "C01": {"w": {"addpage": 8, "addpages": 4, "addlinks": 4, "batch": 4}, "r": {"global": 6, "pages": 2}},
     "C02": {"g1": 0.3, "r": {"locate": 8, "resolution": 2, "metrics": 1}},
-    "C03": {"w": {"addlinks": 8, "batch": 6}, "r": {"pagelinks": 6, "linksiter": 4, "global": 2}},
-    "C04": {"g1": 0.8, "w": {"create": 6, "delete": 3, "deleteu": 1.5, "addprefix": 3, "rmprefix": 3, "moveprefix": 2}, "r": {"resolution": 8, "global": 2}},
-    "C05": {"g1": 0.85, "w": {"create": 5, "addprefix": 2, "clear": 0.5}, "r": {"pages": 8, "resolution": 2, "global": 2}},
-    "C06": {"g1": 1.0, "init_rules": 0.8, "w": {"addrule": 5, "addruleram": 1.2, "rmrule": 1, "addpage": 8}, "r": {"resolution": 6, "global": 3}},
+    "C03": {"w": {"addlinks": 8, "batch": 6, "clear": 0.6}, "r": {"pagelinks": 6, "linksiter": 4, "global": 2}},
+    "C04": {"g1": 0.8, "w": {"chain": 0.25, "create": 6, "delete": 3, "deleteu": 1.5, "addprefix": 3, "rmprefix": 3, "moveprefix": 2}, "r": {"resolution": 8, "global": 2}},
+    "C05": {"g1": 0.85, "w": {"create": 5, "addprefix": 2, "clear": 0.5, "delete": 2, "rmprefix": 2}, "r": {"pages": 8, "resolution": 4, "global": 2}},
+    "C06": {"g1": 1.0, "init_rules": 0.8, "w": {"addrule": 5, "nestedrules": 1.5, "addruleram": 1.2, "rmrule": 1, "addpage": 8}, "r": {"resolution": 6, "global": 3}},
     "C07": {"g1": 0.9, "big_ids": 0.12, "w": {"addlinks": 7, "batch": 5, "create": 4, "rmprefix": 2, "delete": 2, "clear": 0.5}, "r": {"network": 8}},
     "C08": {"g1": 0.9, "big_ids": 0.08, "w": {"addlinks": 7, "batch": 5, "create": 4, "rmprefix": 2, "delete": 2, "clear": 0.5}, "r": {"welinks": 8}},
     "C09": {"g1": 0.9, "w": {"addpage": 10, "addpages": 4, "create": 3, "clear": 0.5}, "r": {"paginate": 8, "pages": 1, "helpers": 1}},
     "C10": {"g1": 0.9, "w": {"addlinks": 8, "batch": 5, "addpage": 5, "create": 3, "rmprefix": 2, "delete": 2, "clear": 0.5}, "r": {"paginatelinks": 8, "helpers": 2}},
     "C11": {"w": {"reopen": 4, "clear": 1.2, "cobatch": 1.5}, "read_rate": 0.7, "abandon_batch": 0.5},
-    "C12": {"g1": 0.9, "init_rules": 0.5, "w": {"create": 5, "delete": 2, "reopen": 2, "addrule": 2, "clear": 0.6}, "r": {"global": 4}},
+    "C12": {"g1": 0.9, "init_rules": 0.5, "poke_ids": 0.4, "w": {"create": 5, "delete": 2, "reopen": 2, "addrule": 2, "clear": 0.6, "addprefix": 2, "moveprefix": 1.5}, "r": {"global": 4}},
     "C13": {"g1": 0.9, "init_rules": 0.6, "w": {"create": 6, "addprefix": 3, "moveprefix": 2, "rmprefix": 2.5, "delete": 1, "deleteu": 0.6, "addrule": 3, "addlinks": 6, "batch": 3}, "r": {"hierarchy": 4, "hierarchy_all": 6}, "read_rate": 0.8,
             "defaults": ["domain", "path1", "path2", "subdomain"]},
     "C14": {"read_rate": 0.9, "init_rules": 0.7, "forget_rule": 0.5, "w": {"reopen": 2.5}, "abandon_batch": 0.3},
